@@ -225,10 +225,15 @@ def check_ctor_forwarders(run, cx, cfg):
         if not any(rp(e) == new for p in ps for _, e in call_events(p)):
             continue
         n += 1
-        names = {v: int(k) for k, v in (b.get('names') or {}).items() if int(k) <= b['argc']}
+        import rename
+        names = {}
+        for nm in ('attack_frames', 'release_frames'):
+            ix = rename.param_index(cx.facts, cfg, b, nm)
+            if ix is not None:
+                names[nm] = ix
         bad = None
         if 'attack_frames' not in names or 'release_frames' not in names:
-            bad = 'constructor has no attack_frames / release_frames parameters (%s)' % sorted(names)
+            bad = 'constructor has no attack_frames / release_frames parameters (%s)' % sorted((b.get('names') or {}).values())
         for p in ps:
             if bad:
                 break
